@@ -1188,6 +1188,27 @@ def correspond(ctx, model):
 
 
 HUBER0 = "huber-nonsep-grad-at-zero"
+ISOTV = "isotv-noncircular-grad-nan"
+
+
+def nan_grad_but_differentiable(f, X, g, shape):
+    """entries where grad is NaN although the two one-sided difference quotients along that
+    coordinate agree (so the functional is differentiable in that coordinate): list of dicts"""
+    import scico.numpy as snp
+
+    out = []
+    gn = np.asarray(g)
+    h = 2.0**-10
+    f0 = float(f(X))
+    for idx in zip(*np.where(np.isnan(gn.real) | np.isnan(np.imag(gn)))):
+        e = np.zeros(shape, dtype=np.asarray(X).dtype)
+        e[idx] = 1.0
+        E = snp.array(e)
+        fdp = (float(f(X + h * E)) - f0) / h
+        fdm = (f0 - float(f(X - h * E))) / h
+        if abs(fdp - fdm) <= 1e-2 * (1.0 + abs(fdp)):
+            out.append({"index": [int(i) for i in idx], "right_difference": fdp, "left_difference": fdm})
+    return out
 
 
 def findings(ctx, model):
@@ -1217,6 +1238,21 @@ def findings(ctx, model):
                 "finite_difference_along_[1,-2,0.5]": 0.0, "dtypes": bad}}, True, "HuberNorm(separable=False).grad(0) is NaN")
     else:
         ctx.known_finding(HUBER0, False)
+    # IsotropicTVNorm with non-circular boundary: structurally zero difference pair at the last pixel
+    shape = (3, 4)
+    f = functional.IsotropicTVNorm(circular=False, input_shape=shape, input_dtype=np.float64)
+    X = snp.array((np.arange(12, dtype=np.float64).reshape(shape)) ** 2)
+    g = f.grad(X)
+    badn = nan_grad_but_differentiable(f, X, g, shape) if np.any(np.isnan(np.asarray(g))) else []
+    if badn:
+        if ctx.is_known(ISOTV):
+            ctx.known_finding(ISOTV, True, f"nan at {badn[0]['index']}")
+        else:
+            ctx.violation({"kind": "failing-input", "op": "search.nan-gradient", "failing": {
+                "functional": "IsotropicTVNorm(circular=False, input_shape=(3,4), input_dtype=float64)",
+                "x": np.asarray(X).tolist(), "nan_entries": badn}}, True, "IsotropicTVNorm(circular=False).grad has NaN")
+    else:
+        ctx.known_finding(ISOTV, False)
 
 
 def _search_fd(ctx, budget):
@@ -1255,7 +1291,7 @@ def _search_fd(ctx, budget):
             elif which == 4:
                 f, name = functional.AnisotropicTVNorm(input_shape=shape, input_dtype=dt), "AnisotropicTVNorm"
             elif which == 5:
-                f, name = functional.IsotropicTVNorm(input_shape=shape, input_dtype=dt), "IsotropicTVNorm"
+                f, name = functional.IsotropicTVNorm(circular=bool(rng.integers(2)), input_shape=shape, input_dtype=dt), "IsotropicTVNorm"
             elif which == 6:
                 if cplx:
                     continue
@@ -1299,7 +1335,10 @@ def _search_fd(ctx, budget):
         tested += 1
         ctx.count(f"search:{name}")
         if np.any(np.isnan(g)):
-            ctx.count("search:nan-gradient-skipped")
+            badn = nan_grad_but_differentiable(f, Xs, g, shape)
+            if badn and not (name == "IsotropicTVNorm" and ctx.is_known(ISOTV)):
+                return {"functional": name, "shape": list(shape), "cplx": cplx, "x": G.enc(X), "grad_is_nan_at": badn}
+            ctx.count("search:nan-gradient:" + ("known-" + ISOTV if badn else "at-a-kink"))
             continue
         for _ in range(3):
             d = G.dy(rng, shape, cplx, bits=3, scale=1.0)
